@@ -52,6 +52,7 @@ func tail(s string, n int) string {
 	return s
 }
 
+// replayB: a part-b history; events are written as in the evidence (push:A[D,UM+1]&B[LM-1], ts_fail, retry, ...).
 type replayB struct {
 	Part    string   `json:"part"`
 	TZ      string   `json:"tz"`
@@ -69,8 +70,9 @@ func main() {
 	ir.InitWriterGlobals()
 	r.Rule = "part a: every label set of size <= 3 over 3 names x 9 (thorough 17) values incl. quote, backslash, \\x07, \\x00, multi-byte, invalid UTF-8, >100 bytes, " +
 		"every permutation, alone and as second stream of another request, through every protocol/layout that can say it (distinct = distinct stored label set); " +
-		"part b: breadth-first over all histories of {push(series A|B, day D|D+1|local-midnight-1s|UTC-midnight-1s), malformed push mentioning A|B, series/samples INSERT fails next / ok, " +
-		"client retries last push, cache reset, clock crosses midnight} up to the stated depth, per configuration TZ x cluster x retry attempts, states de-duplicated by " +
+		"part b: breadth-first over all histories, up to the stated total size, of {push(request shape: 1-2 streams, series A|B each — the same series twice or two series —, 1-2 entries per stream at " +
+		"instants D | D+1 | 1 s before/after UTC midnight | 1 s before/after local midnight, in every order), malformed push mentioning A|B, series/samples INSERT fails next / ok, " +
+		"client retries last push, cache reset, clock crosses midnight}, per configuration TZ x cluster x retry attempts, states de-duplicated by " +
 		"(cache contents, acknowledged samples, inserted series rows, pending faults, last push, clock)"
 	r.Assumptions = []string{
 		"a failed INSERT stores none of its rows; a successful one stores all of them",
@@ -85,10 +87,13 @@ func main() {
 	}
 
 	// ---- part b workers start first (they run while part a runs in this process)
-	depth := 4
+	// two explorations per configuration: "single" = pushes of one stream with one entry, bounded by history size
+	// (= depth); "shapes" = every request shape of 1-2 streams x 1-2 entries (same series twice, two series, a stream
+	// spanning two days, ...), a push costing its number of entries
+	depth, shapeEntries, shapeBudget := 4, 3, 3
 	retries := []int{1, 2}
 	if r.Thorough() {
-		depth = 5
+		depth, shapeEntries, shapeBudget = 5, 4, 4
 	}
 	if s := os.Getenv("VERIF_C04_DEPTH"); s != "" { // experiments only
 		fmt.Sscanf(s, "%d", &depth)
@@ -99,15 +104,18 @@ func main() {
 		for _, cl := range []bool{false, true} {
 			for _, rt := range retries {
 				if r.Thorough() {
-					for first := range bEvents { // shard by first event
-						jobs = append(jobs, job{bConfig{TZ: tz, Cluster: cl, Retry: rt, Depth: depth, First: first}})
+					const shards = 16
+					for sh := 0; sh < shards; sh++ { // shard by first event
+						jobs = append(jobs, job{bConfig{TZ: tz, Cluster: cl, Retry: rt, Budget: depth, MaxEntries: 1, Shard: sh, Shards: shards}})
+						jobs = append(jobs, job{bConfig{TZ: tz, Cluster: cl, Retry: rt, Budget: shapeBudget, MaxEntries: shapeEntries, Shard: sh, Shards: shards}})
 						if rt == 1 && (tz == "UTC" || tz == "America/Los_Angeles") && os.Getenv("VERIF_C04_DEPTH") == "" {
 							// extension: one level deeper where the zone matters (west of UTC vs. none), default retry
-							bonus = append(bonus, job{bConfig{TZ: tz, Cluster: cl, Retry: rt, Depth: depth + 1, First: first}})
+							bonus = append(bonus, job{bConfig{TZ: tz, Cluster: cl, Retry: rt, Budget: depth + 1, MaxEntries: 1, Shard: sh, Shards: shards}})
 						}
 					}
 				} else {
-					jobs = append(jobs, job{bConfig{TZ: tz, Cluster: cl, Retry: rt, Depth: depth, First: -1}})
+					jobs = append(jobs, job{bConfig{TZ: tz, Cluster: cl, Retry: rt, Budget: depth, MaxEntries: 1}})
+					jobs = append(jobs, job{bConfig{TZ: tz, Cluster: cl, Retry: rt, Budget: shapeBudget, MaxEntries: shapeEntries}})
 				}
 			}
 		}
@@ -149,9 +157,9 @@ func main() {
 			if used, total := time.Since(started), r.Deadline.Sub(started); used < total/8 {
 				r2, e2 := runAll(bonus)
 				results, errs = append(results, r2...), append(errs, e2...)
-				extNote = fmt.Sprintf("depth %d for TZ in {UTC, America/Los_Angeles} x cluster {off,on} with retry_attempts=1", depth+1)
+				extNote = fmt.Sprintf("single-entry exploration to depth %d for TZ in {UTC, America/Los_Angeles} x cluster {off,on} with retry_attempts=1", depth+1)
 			} else {
-				extNote = fmt.Sprintf("skipped: the depth-%d exploration took %.0f s of the %.0f s budget (machine loaded); the stated bound of this tier is depth %d", depth, used.Seconds(), total.Seconds(), depth)
+				extNote = fmt.Sprintf("skipped: the base explorations took %.0f s of the %.0f s budget (machine loaded); the stated bound of this tier is depth %d / shape budget %d", used.Seconds(), total.Seconds(), depth, shapeBudget)
 			}
 		}
 	}()
@@ -173,6 +181,7 @@ func main() {
 		TZ      string
 		Cluster bool
 		Retry   int
+		Kind    string
 	}
 	distinct := map[cfgKey]map[uint64]struct{}{}
 	perCfg := map[string]map[string]any{}
@@ -185,7 +194,11 @@ func main() {
 	byClass := map[string][]vio{}
 	var notes []string
 	for _, res := range results {
-		k := cfgKey{res.Config.TZ, res.Config.Cluster, res.Config.Retry}
+		kind := fmt.Sprintf("single<=%d", res.Config.Budget)
+		if res.Config.MaxEntries > 1 {
+			kind = fmt.Sprintf("shapes(%d entries)<=%d", res.Config.MaxEntries, res.Config.Budget)
+		}
+		k := cfgKey{res.Config.TZ, res.Config.Cluster, res.Config.Retry, kind}
 		if distinct[k] == nil {
 			distinct[k] = map[uint64]struct{}{}
 		}
@@ -194,7 +207,7 @@ func main() {
 		}
 		r.Transitions += res.Transitions
 		r.TracesValidated += res.Requests
-		name := fmt.Sprintf("TZ=%s cluster=%v retry=%d", k.TZ, k.Cluster, k.Retry)
+		name := fmt.Sprintf("TZ=%s cluster=%v retry=%d %s", k.TZ, k.Cluster, k.Retry, k.Kind)
 		m := perCfg[name]
 		if m == nil {
 			m = map[string]any{"transitions": int64(0), "requests": int64(0), "inserts": int64(0), "max_depth": 0, "zone_offset_s": res.ZoneOffsetS, "frontier_left": 0}
@@ -231,21 +244,26 @@ func main() {
 	}
 	for k, m := range distinct {
 		r.States += int64(len(m))
-		perCfg[fmt.Sprintf("TZ=%s cluster=%v retry=%d", k.TZ, k.Cluster, k.Retry)]["distinct_states"] = len(m)
+		perCfg[fmt.Sprintf("TZ=%s cluster=%v retry=%d %s", k.TZ, k.Cluster, k.Retry, k.Kind)]["distinct_states"] = len(m)
 	}
 	for o, n := range outcomes {
 		for i := int64(0); i < n && i < 1; i++ {
 			r.Outcome("b:" + o)
 		}
 	}
-	r.Extra["b_depth"] = depth
-	r.Extra["b_events"] = bEvents
+	r.Extra["b_explorations"] = []string{
+		fmt.Sprintf("single: pushes of one stream with one entry (2 series x %d day classes), history size (= depth) <= %d", len(dayClasses), depth),
+		fmt.Sprintf("shapes: every request of 1-2 streams x 1-2 entries with <= %d entries in total (%d push events), history size <= %d where a push costs its number of entries", shapeEntries, len(pushEvents(shapeEntries)), shapeBudget),
+	}
+	r.Extra["b_day_classes"] = dayClasses
+	r.Extra["b_control_events"] = controlEvents
 	r.Extra["b_configurations"] = perCfg
 	r.Extra["b_event_outcomes"] = outcomes
 	r.Extra["b_states_in_violation_per_class"] = classCount
 	sort.Strings(notes)
 	r.Extra["b_notes"] = notes
-	r.Sample(map[string]any{"part": "b", "history": []string{"ts_fail", "push:A:D", "retry"}})
+	r.Sample(map[string]any{"part": "b", "history": []string{"ts_fail", "push:A[D]", "retry"}})
+	r.Sample(map[string]any{"part": "b", "history": []string{"push:A[D]&A[UM-1,UM+1]"}})
 	r.Sample(map[string]any{"part": "a", "speaker": "loki_json_stream_values", "labels": []ir.Label{{Name: "a", Value: `q"`}, {Name: "c-d", Value: "é✓"}}})
 	var classes []string
 	for c := range byClass {
@@ -326,7 +344,7 @@ func replay(r *ev.Run) {
 		if err := json.Unmarshal(doc.Replay, &rp); err != nil {
 			ev.Fatal("replay: %v", err)
 		}
-		res, err := runWorker(context.Background(), bConfig{TZ: rp.TZ, Cluster: rp.Cluster, Retry: rp.Retry, First: -1, History: rp.History}, time.Time{})
+		res, err := runWorker(context.Background(), bConfig{TZ: rp.TZ, Cluster: rp.Cluster, Retry: rp.Retry, History: rp.History}, time.Time{})
 		if err != nil {
 			ev.Fatal("replay: %v", err)
 		}
